@@ -50,3 +50,7 @@ Definition files_written (is_generate : bool) (r : run_result) : file_map :=
 Definition is_failure (p : pkg_outcome) : bool := match p with Good _ => false | _ => true end.
 Definition all_files (pkgs : list pkg_outcome) : file_map :=
   flat_map (fun p => match p with Good fs => fs | _ => [] end) pkgs.
+
+(** printFileErr: the file name of a diagnostic is printed relative to the configuration
+    directory when the file lies below it (strings.TrimPrefix(name, dir+"/")), unchanged otherwise *)
+Definition print_name (dir file : string) : string := trim_prefix file (dir +++ "/").
